@@ -38,6 +38,19 @@ theorem C38_conflict_rejected {d : Doc} {c x : Change} (hx : x ∈ d.applied ++ 
       q.Sublist d.queue :=
   applyBatch_conflict hx ha hs hnew
 
+/-- C38, second sentence in general: "A change that would create such a pair, applied directly, via
+    load, via sync or queued and later released, is rejected or discarded".  If `c` differs from a
+    known change `x` (applied or held) with the same actor and sequence number, then after ANY
+    `apply_changes` call from this state — whatever list is offered, `c` alone, `c` in the middle
+    of a batch, `c` together with the changes that release `x` — `c` is neither applied nor held.
+    (By `C38_apply_stays_consistent` the hypothesis `d.Inv` holds again afterwards, and `x` is
+    still known unless a failing call pruned it, so this iterates over later calls.) -/
+theorem C38_conflicting_change_never_enters {d : Doc} (hinv : d.Inv) {c x : Change}
+    (hx : x ∈ d.applied ++ d.queue) (ha : x.actor = c.actor) (hs : x.seq = c.seq) (hne : c ≠ x)
+    (cs : List Change) :
+    c ∉ (applyBatch d cs).1.applied ++ (applyBatch d cs).1.queue :=
+  conflicting_never_enters hinv hx ha hs hne cs
+
 /-- C38, second sentence, "or discarded": changes whose hash is already known are ignored. -/
 theorem C38_known_discarded {d : Doc} (hinv : d.Inv) {cs : List Change}
     (hk : ∀ c ∈ cs, c.hash ∈ hashes (d.applied ++ d.queue)) : applyBatch d cs = (d, .ok ()) :=
@@ -66,8 +79,9 @@ example :
     (applyBatch Ex.doc2 [Ex.b1']).2 = .error (.duplicateSeq 1 [0xB]) ∧
     (applyBatch Ex.doc2 [Ex.b1']).1.applied = Ex.doc2.applied ∧
     applyBatch Ex.doc2 [Ex.b1, Ex.e1] = (Ex.doc2, .ok ()) ∧
+    Ex.b1' ∉ (applyBatch Ex.doc2 [Ex.m0, Ex.b1']).1.applied ++ (applyBatch Ex.doc2 [Ex.m0, Ex.b1']).1.queue ∧
     (localCommit Ex.doc2 ⟨[10], [0xB], 3, 9, [[4]], []⟩).queue = [Ex.e2, Ex.e1] :=
-  ⟨Ex.doc2_reachable, by decide, by decide, by decide, by decide, by decide⟩
+  ⟨Ex.doc2_reachable, by decide, by decide, by decide, by decide, by decide, by decide⟩
 
 example : LocalOK Ex.doc2 ⟨[10], [0xB], 3, 9, [[4]], []⟩ :=
   ⟨by decide, by decide, by decide, by decide⟩
